@@ -346,6 +346,15 @@ func VerifyFunc(P *Program, fn *ssa.Function, c *Contract, cf *ContractFile, ins
 				continue
 			}
 			e.obNamed(fmt.Sprintf("%s.ensures#%d", name, en.Ord), "ensures", "postcondition: "+en.Text, rst.cond, g, fn.Pos())
+			// vacuity of a conditional postcondition: its antecedent must be possible at some return (a clause A ==> B whose
+			// A can never hold at a return says nothing - e.g. because the model loses the writes that make A true)
+			if en.E.Op == "bin" && en.E.Name == "==>" && vo.canaryFor == "" {
+				if a, err := e.evalBool(post, en.E.Args[0]); err == nil {
+					fr.Covers = append(fr.Covers, &Obligation{Name: fmt.Sprintf("%s.cover.ensures#%d", name, en.Ord), Func: name, Kind: "cover",
+						Desc: "the antecedent of postcondition " + fmt.Sprint(en.Ord) + " can hold at a return: " + en.E.Args[0].String(), sc: e.sc, snap: e.sc.Snap(),
+						goal: "(assert " + sAnd(rst.cond, a) + ")", Pos: P.pos(fn.Pos())})
+				}
+			}
 		}
 		// type invariants of results
 		for i, v := range vals {
